@@ -37,6 +37,9 @@ def gen_family(seed, fam):
         for n in r.choice(corpus.VARIANT_PAIRS):
             if n not in chosen:
                 chosen.append(n)
+    if r.random() < 0.08 and not big:
+        # theme: a module that needs far more stack than the default limit gives (RecursionError on the pinned tree)
+        chosen.append('api/a59_deep_chain.py')
     state_pair = None
     if pair is None and r.random() < 0.08:
         state_pair = r.choice(corpus.STATE_PAIRS)
@@ -76,7 +79,18 @@ def gen_family(seed, fam):
     if pair is not None and not isinstance(lists[shared_slot], list):
         lists[shared_slot] = []
     nopts = r.choice([0, 1, 1, 1, 2])
+    theme_annotations = r.random() < 0.1
+    if theme_annotations:
+        # theme: annotation-heavy sources with caller-owned option objects (class attribute removal on)
+        nopts = max(nopts, 1)
+        for n in ('api/a15_annotations.py', 'api/a50_dataclass_mixed.py', 'api/a47_time_mixed.py'):
+            if n in byname and n not in chosen and r.random() < 0.7:
+                chosen.append(n)
+                sources.append(byname[n])
+                names.append(n)
     opts = [[r.random() < 0.5 for _ in range(4)] for _ in range(nopts)]
+    if theme_annotations:
+        opts[0][3] = True
     if nopts and r.random() < 0.25:
         # truthy / falsy values that are not bool: an implementation that normalises the object in place shows up
         o = opts[r.randrange(nopts)]
@@ -116,13 +130,21 @@ def gen_family(seed, fam):
             if r.random() < 0.5:
                 c['pl'] = shared_slot if r.random() < 0.5 else r.randrange(nlists)
             x = r.random()
-            if x < 0.35 or (nopts == 0 and x < 0.8):
+            if theme_annotations and x < 0.7:
+                c['ra'] = {'slot': r.randrange(nopts)}
+            elif x < 0.35 or (nopts == 0 and x < 0.8):
                 c['ra'] = 'omit'
             elif nopts and x < 0.85:
                 c['ra'] = {'slot': r.randrange(nopts)}
             else:
                 c['ra'] = r.random() < 0.5
         templates.append(c)
+    if theme_annotations:
+        themed = [i for i, n in enumerate(names) if any(x in n for x in ('a15_', 'a50_', 'a47_'))]
+        for t in templates:
+            if themed and t['api'] == 'minify' and r.random() < 0.6:
+                t['src'] = r.choice(themed)
+                t['ra'] = {'slot': 0}
     feeder = consumer = None
     if state_pair is not None:
         for k, srcname in ((0, state_pair[0]), (1, state_pair[1])):
